@@ -123,6 +123,22 @@ def r1_frame(c, facts):
                 c.bad(R, '%s:%s:%s' % (fn.qname, w['kind'], path),
                       '%s writes the OpenAPI document outside the frame {paths, components.schemas}: %s of `%s`%s (%s:%s)'
                       % (fn.qname, w['kind'], path, ' via ' + w['via'] if w.get('via') else '', fn.file, w['line']), **inst)
+    # each frame field is assigned on every path to the return
+    frame_blocks = {}
+    for b, blk in into.blocks():
+        for s in blk['stmts']:
+            if s['s'] == 'assign' and s['place']['proj']:
+                fp = tuple(x for x in MF.field_path(s['place']) if not x.startswith('<'))
+                if fp == ('paths',):
+                    frame_blocks.setdefault(('paths',), []).append(b)
+                if fp == ('schemas',) and s['place']['proj'][0]['p'] == 'deref':
+                    frame_blocks.setdefault(('components', 'schemas'), []).append(b)
+    for p, blocks in frame_blocks.items():
+        reach = into.reachable_from(0, avoid=blocks)
+        if any(into.mir['blocks'][b]['term']['t'] == 'return' for b in reach):
+            c.bad(R, 'frame-field-conditionally-written:' + '.'.join(p), 'into_openapi can return without replacing %s: with a base document, stale %s of the base survive' % ('.'.join(p), p[-1]))
+        else:
+            c.ok(R, {'frame field': '.'.join(p), 'assigned on every path': True})
     for p in FRAME:
         if p not in seen_frame:
             c.bad(R, 'frame-field-not-written:' + '.'.join(p), 'into_openapi no longer assigns %s from the program' % '.'.join(p))
